@@ -32,7 +32,7 @@ ALPHA = {
     "A": [("dec", 2, {}), ("dec", 3, {"ftype": "fir"}), ("det", {"type": "linear"}), ("det", {"type": "c"}),
           ("filt", 1.5, 4, "lowpass"), ("filt", [0.5, 2.0], 2, "bandpass"), ("rb",), ("add",),
           ("dec", 2, {"n": 4, "zero_phase": False}), ("readd",)],
-    "B": [("dec", 5, {}), ("dec", 4, {"ftype": "fir", "n": 30}), ("det", {}), ("det", {"type": "l", "bp": [40, 90]}),
+    "B": [("dec", 5, {}), ("dec", 4, {"ftype": "fir", "n": 31}), ("det", {}), ("det", {"type": "l", "bp": [40, 90]}),
           ("filt", 2.0, 3, "high"), ("filt", [1.0, 2.5], 2, "stop"), ("rb",), ("add",),
           ("dec", 2, {"ftype": "iir", "n": 6, "zero_phase": True}), ("readd",)],
     "C": [("dec", 3, {"ftype": "dlti-iir-cheby1-4", "zero_phase": False}), ("dec", 2, {"ftype": "fir", "zero_phase": False}), ("det", {"type": "constant", "bp": 0}),
@@ -102,7 +102,7 @@ def value_space():
     for ft in ("iir", "fir", "dlti-iir-cheby1-4", "dlti-fir-21"):
         for zp in (True, False):
             ops.append(("dec", next(qs), {"ftype": ft, "zero_phase": zp}))
-    ops += [("dec", 3, {"ftype": "iir", "n": 3}), ("dec", 2, {"ftype": "fir", "n": 20}), ("dec", 4, {"n": None, "ftype": "iir"}), ("dec", 5, {"n": 2})]
+    ops += [("dec", 3, {"ftype": "iir", "n": 3}), ("dec", 2, {"ftype": "fir", "n": 20}), ("dec", 3, {"ftype": "fir", "n": 15}), ("dec", 2, {"ftype": "fir", "n": 9, "zero_phase": True}), ("dec", 4, {"n": None, "ftype": "iir"}), ("dec", 5, {"n": 2})]
     try:
         from scipy.signal import _filter_design as fd
         table = dict(fd.band_dict)
